@@ -244,9 +244,19 @@ THRESHOLDS = {
 }
 
 
+PARTITION_CALLS = ('::chunks', '::chunks_exact', '::chunks_mut', '::chunks_exact_mut', '::rchunks', '::rchunks_exact', '::windows', '::split_at', '::split_at_mut',
+                   '::split_at_checked', 'Iterator::take', 'Iterator::skip', 'Iterator::step_by', 'Ord::min', 'Ord::max', 'cmp::min', 'cmp::max', '::truncate',
+                   '::split_off', '::resize', '::array_chunks', '::first_chunk', '::split_first_chunk', '::last_chunk', '::split_last_chunk')
+PARTITIONS = {
+    ('bbsplus::proof::BBSplusPoKSignature::from_bytes', 'chunks_exact', 32): 'framing: one 32-byte scalar per undisclosed message',
+    ('bbsplus::proof::BBSplusZKPoK::from_bytes', 'chunks_exact', 32): 'framing: one 32-byte scalar per committed message',
+}
+
+
 def rule_size_thresholds(ctx, cfg='prod-all', scope=('bbsplus::', 'utils::util::bbsplus_utils', 'utils::message::bbsplus_message', 'utils::util::get_remaining')):
     prog, za = ctx.prog(cfg), ctx.zone(cfg)
     n = 0
+    n_part = 0
     for p, b in sorted(prog.bodies.items()):
         if b.from_expansion or not p.startswith(scope):
             continue
@@ -295,7 +305,24 @@ def rule_size_thresholds(ctx, cfg='prod-all', scope=('bbsplus::', 'utils::util::
                          'a branch compares a length / count with the literal %s: size-dependent special cases must be the ones of the drafts' % k,
                          '%s L%s' % (b.file(), t.get('line')), fact={'term': sym, 'constant': k, 'reason': THRESHOLDS.get((owner, k))},
                          expected='tabled threshold')
+        # partitioning by a constant size: chunks(N), split_at(N), take(N), len.min(N) ... treat sizes below and above N differently without a branch
+        for bi, t in b.calls():
+            cal = t.get('callee') or ''
+            if not cal.endswith(PARTITION_CALLS):
+                continue
+            for a in t['args'][1:]:
+                tt = zf.term_op(a)
+                if tt is None or tt[0] is not None:
+                    continue
+                k = tt[1]
+                short = cal.split('::')[-1]
+                n_part += 1
+                ok = (owner, short, k) in PARTITIONS
+                yield Ob('RF-T', '%s#partition:%s(%s)' % (owner, short, k), ok,
+                         'a list is partitioned at the literal size %s by %s: inputs shorter and longer than that are processed differently' % (k, short),
+                         '%s L%s' % (b.file(), t.get('line')), fact={'callee': cal, 'constant': k, 'reason': PARTITIONS.get((owner, short, k))}, expected='tabled partition')
     yield Ob('RF-T', 'crate#threshold-census', n >= 10, 'size-threshold branches found', '', fact=n, expected='>= 10', nontrivial=False)
+    yield Ob('RF-T', 'crate#partition-census', n_part >= 2, 'constant-size partitions found (the two 32-byte scalar framings)', '', fact=n_part, expected='>= 2', nontrivial=False)
 
 
 # ---------------------------------------------------------------------------------- checked constructors
@@ -409,3 +436,69 @@ def rule_result_binding(ctx, table=None, cfg='prod-all', only=None):
                 ok = r in srcs or (exact_eq and r != 'self')
                 yield Ob('RF-D', '%s#result[%d]∋%s' % (body.path, n, r), ok, 'success value returned here is computed from `%s`' % r,
                          '%s L%s' % (body.file(), s.get('line')), fact={'sources': sorted(x for x in srcs if x), 'under_exact_equality': exact_eq}, expected=r)
+
+
+# ------------------------------------------------------------------ index lists are validated against their own message list
+INDEX_LISTS = [
+    (_T.POK + 'blind_proof_gen', 'disclosed_indexes', 'messages'),
+    (_T.POK + 'blind_proof_gen', 'disclosed_commitment_indexes', 'committed_messages'),
+    ('bbsplus::proof::core_proof_gen', 'disclosed_indexes', 'messages'),
+]
+
+
+def _syms_from_param(zf, kind, kparam):
+    """symbols `kind:<container>` occurring in the function's facts whose container is (derived by Option defaulting / copying from) parameter kparam"""
+    from dep import strip
+    body, fd = zf.body, zf.fd
+    out = set()
+    pname = body.local_name(kparam)
+    for fs in list(zf.edge_facts.values()) + [[(a, b) for (_w, a, b) in zf.global_facts]]:
+        for pair in fs:
+            for t in pair:
+                if t is None or t[0] is None or not t[0].startswith(kind + ':'):
+                    continue
+                nm = t[0][len(kind) + 1:]
+                if '.' in nm:
+                    continue
+                if nm == pname:
+                    out.add(t[0])
+                elif nm.startswith('_') and nm[1:].isdigit():
+                    from rf_consts import _trace_identity
+                    par, _chain, _why = _trace_identity(fd, body, {'k': 'copy', 'pl': {'l': int(nm[1:])}})
+                    if par == kparam:
+                        out.add(t[0])
+    return out
+
+
+def rule_index_lists_validated(ctx, cfg='prod-all', table=INDEX_LISTS):
+    """on every success return of a proof generator, every element of an index list is known to be smaller than the length of the message
+    list it indexes (facts of the difference-bound domain, including the quantified facts produced by any / all / find over the list and
+    by checking helpers), and it is NOT merely known to be smaller than the length of another list of the same call: an index list checked
+    against the wrong list refuses honest inputs when that list is shorter and lets out-of-range indexes through when it is longer."""
+    prog, za = ctx.prog(cfg), ctx.zone(cfg)
+    for suffix, ilist, mlist in table:
+        body = resolve_fn(prog, suffix)
+        za.summary(body.path)
+        zf = za.zf(body.path)
+        ki, km = body.param_index(ilist), body.param_index(mlist)
+        if ki is None or km is None:
+            raise AnchorMissing('%s: parameters %s / %s' % (body.path, ilist, mlist))
+        accept = [bi for bi, blk in enumerate(body.blocks) if not blk['cleanup'] and any(
+            s['k'] == 'assign' and s['dst']['l'] == 0 and not s['dst'].get('p') and s['rv']['k'] == 'agg' and s['rv'].get('variant') == 'Ok' for s in blk['stmts'])]
+        if not accept:
+            raise AnchorMissing('%s: no Ok return' % body.path)
+        es = _syms_from_param(zf, 'elem', ki)
+        ls = _syms_from_param(zf, 'len', km) | ({'len:' + mlist} if body.local_ty(km).startswith(('&[', '&std::vec::Vec')) else set())
+        ok = bool(es) and bool(ls) and all(any(zf.prove_le((e, 1), (l, 0), a) for e in es for l in ls) for a in accept)
+        yield Ob('RF-L', '%s#validated:%s<len(%s)' % (body.path, ilist, mlist), ok,
+                 'every element of `%s` is below the length of `%s` on every success return' % (ilist, mlist), body.span,
+                 fact={'element_symbols': sorted(es), 'length_symbols': sorted(ls), 'success_returns': len(accept)}, expected='elem + 1 <= len')
+        # exactness: not validated against another list of the same call
+        others = [m2 for (s2, i2, m2) in table if s2 == suffix and m2 != mlist]
+        for m2 in others:
+            k2 = body.param_index(m2)
+            l2 = _syms_from_param(zf, 'len', k2) if k2 is not None else set()
+            wrong = bool(es) and bool(l2) and any(zf.prove_le((e, 1), (l, 0), a) for e in es for l in l2 for a in accept)
+            yield Ob('RF-L', '%s#not-against:%s<len(%s)' % (body.path, ilist, m2), not wrong,
+                     '`%s` is not bounded by the length of the unrelated list `%s`' % (ilist, m2), body.span,
+                     fact={'element_symbols': sorted(es), 'other_length_symbols': sorted(l2)}, expected='no such bound')
